@@ -76,7 +76,7 @@ func isGlobalNamed(v ssa.Value, name string) bool {
 
 func c04R1(h H) {
 	r := h.r
-	r.Rule("R1", "hop-by-hop table and symmetric use: proxy.hopHeaders ⊇ {Connection, Keep-Alive, Proxy-Authenticate, Proxy-Authorization, Te, Trailer, Transfer-Encoding, Upgrade}; createUpstreamRequest (request side) and ReverseProxy.ServeHTTP (response side) each delete, from the message's header, every element of a loop over hopHeaders, and read the Connection header (whose tokens they delete) before that loop", 11)
+	r.Rule("R1", "hop-by-hop table and symmetric use: proxy.hopHeaders ⊇ {Connection, Keep-Alive, Proxy-Authenticate, Proxy-Authorization, Te, Trailer, Transfer-Encoding, Upgrade}; createUpstreamRequest (request side) and ReverseProxy.ServeHTTP (response side) each delete, from the message's header, every element of a loop over hopHeaders, and read the Connection header (whose tokens they delete) before that loop; on the response side the header_downstream update function is called after all of these deletions", 12)
 	tab, pos := h.p.stringTable(pxPkg, "hopHeaders")
 	if tab == nil {
 		r.Unresolve("R1", "proxy.hopHeaders table not found as a constant []string literal")
@@ -130,6 +130,35 @@ func c04R1(h H) {
 			// table deletion must not be conditional on anything but the loop and (request side) presence of the header
 			_, loop := loopOf(d.Block())
 			r.Check(loop != nil, "R1", key+"/table-delete-in-loop", d.Pos(), "the table deletion happens inside the loop over hopHeaders")
+		}
+		if spec[1] == "response" {
+			// the operator's header_downstream rules are applied to what the client will receive: after the call
+			// of the update function no hop-by-hop deletion can follow (a rule that sets a header named in the
+			// table or in Connection would otherwise be undone, and the deletions would see the rules' output)
+			upd := findCalls(fn, func(in ssa.Instruction) bool {
+				c := callOf(in)
+				if c == nil || c.IsInvoke() || c.StaticCallee() != nil {
+					return false
+				}
+				return strings.HasSuffix(c.Value.Type().String(), "proxy.respUpdateFn")
+			})
+			if len(upd) == 0 {
+				r.Unresolve("R1", "ReverseProxy.ServeHTTP: no call of the response update function")
+			}
+			for k, u := range upd {
+				later := false
+				reach(fn, u, cut{}, func(in ssa.Instruction) bool {
+					for _, d := range append(append([]ssa.Instruction{}, tableDels...), tokenDels...) {
+						if in == d {
+							later = true
+							return false
+						}
+					}
+					return true
+				})
+				r.Check(!later, "R1", sprintf("%s/downstream-rules-after-hop-removal#%d", key, k+1), u.Pos(),
+					"the configured header_downstream changes are applied after hop-by-hop removal, so they reach the client exactly as configured")
+			}
 		}
 		// the token loop must not be skipped: guards of token deletion ⊆ {Connection != "", token != "", loop, copy flag}
 	}
